@@ -79,37 +79,43 @@ def check_dispatch(case):
             kw["specific_instance"] = m0
         sim._add_event(EventHook(event=ev, hook_type=hk, is_before=hbefore, time=times, **kw))
         evs.append((ev, hk, hbefore, times, flt))
-    other = now + 3       # a time that is NOT the occurrence's time
-    order = Order(agent_id=0, market_id=occ_market.market_id, is_buy=True, kind=LIMIT_ORDER, volume=1, price=10.0, placed_at=other, order_id=7)
-    if kind == "order":
-        if before:
-            o = Order(agent_id=0, market_id=occ_market.market_id, is_buy=True, kind=LIMIT_ORDER, volume=1, price=10.0); sim._trigger_event_before_order(o); key = id(o)
+    # several occurrences in a row on the same simulator: dispatching must not change what later occurrences see
+    for now in (now, now + 1, now):
+        for m in (m0, m1):
+            m.time = now
+        for ev, *_rest in evs:
+            ev.calls = []
+        other = now + 3       # a time that is NOT the occurrence's time
+        order = Order(agent_id=0, market_id=occ_market.market_id, is_buy=True, kind=LIMIT_ORDER, volume=1, price=10.0, placed_at=other, order_id=7)
+        if kind == "order":
+            if before:
+                o = Order(agent_id=0, market_id=occ_market.market_id, is_buy=True, kind=LIMIT_ORDER, volume=1, price=10.0); sim._trigger_event_before_order(o); key = id(o)
+            else:
+                lg = OrderLog(order_id=1, market_id=occ_market.market_id, time=now, agent_id=0, is_buy=True, kind=LIMIT_ORDER, volume=1, price=10.0, ttl=None); sim._trigger_event_after_order(lg); key = id(lg)
+        elif kind == "cancel":
+            if before:
+                c = Cancel(order=order); sim._trigger_event_before_cancel(c); key = id(c)
+            else:
+                lg = CancelLog(order_id=7, market_id=occ_market.market_id, cancel_time=now, order_time=other, agent_id=0, is_buy=True, kind=LIMIT_ORDER, volume=1, price=10.0, ttl=None)
+                sim._trigger_event_after_cancel(lg); key = id(lg)
+        elif kind == "execution":
+            lg = ExecutionLog(market_id=occ_market.market_id, time=now, buy_agent_id=0, sell_agent_id=1, buy_order_id=1, sell_order_id=2, price=10.0, volume=1)
+            sim._trigger_event_after_execution(lg); key = id(lg)
+        elif kind == "session":
+            steps = 4
+            ses = Session(session_id=0, prng=random.Random(0), session_start_time=(now if before else now - steps + 1), simulator=sim, name="s")
+            ses.iteration_steps = steps
+            (sim._trigger_event_before_session if before else sim._trigger_event_after_session)(ses); key = id(ses)
         else:
-            lg = OrderLog(order_id=1, market_id=occ_market.market_id, time=now, agent_id=0, is_buy=True, kind=LIMIT_ORDER, volume=1, price=10.0, ttl=None); sim._trigger_event_after_order(lg); key = id(lg)
-    elif kind == "cancel":
-        if before:
-            c = Cancel(order=order); sim._trigger_event_before_cancel(c); key = id(c)
-        else:
-            lg = CancelLog(order_id=7, market_id=occ_market.market_id, cancel_time=now, order_time=other, agent_id=0, is_buy=True, kind=LIMIT_ORDER, volume=1, price=10.0, ttl=None)
-            sim._trigger_event_after_cancel(lg); key = id(lg)
-    elif kind == "execution":
-        lg = ExecutionLog(market_id=occ_market.market_id, time=now, buy_agent_id=0, sell_agent_id=1, buy_order_id=1, sell_order_id=2, price=10.0, volume=1)
-        sim._trigger_event_after_execution(lg); key = id(lg)
-    elif kind == "session":
-        steps = 4
-        ses = Session(session_id=0, prng=random.Random(0), session_start_time=(now if before else now - steps + 1), simulator=sim, name="s")
-        ses.iteration_steps = steps
-        (sim._trigger_event_before_session if before else sim._trigger_event_after_session)(ses); key = id(ses)
-    else:
-        (sim._trigger_event_before_step_for_market if before else sim._trigger_event_after_step_for_market)(occ_market); key = id(occ_market)
-    order_seen = []
-    for ev, hk, hbefore, times, flt in evs:
-        match = hk == kind and hbefore == before and (times is None or now in times)
-        if match and hk == "market":
-            match = flt is None or (flt == "class" and isinstance(occ_market, IndexMarket)) or (flt == "instance" and occ_market is m0)
-        want = [(kind, before, key)] if match else []
-        if ev.calls != want:
-            return f"{kind} {'before' if before else 'after'} at time {now}: hook ({hk}, before={hbefore}, times={times}, filter={flt}) was invoked {len(ev.calls)} time(s) {ev.calls[:2]}, expected {len(want)}"
+            (sim._trigger_event_before_step_for_market if before else sim._trigger_event_after_step_for_market)(occ_market); key = id(occ_market)
+        order_seen = []
+        for ev, hk, hbefore, times, flt in evs:
+            match = hk == kind and hbefore == before and (times is None or now in times)
+            if match and hk == "market":
+                match = flt is None or (flt == "class" and isinstance(occ_market, IndexMarket)) or (flt == "instance" and occ_market is m0)
+            want = [(kind, before, key)] if match else []
+            if ev.calls != want:
+                return f"{kind} {'before' if before else 'after'} at time {now}: hook ({hk}, before={hbefore}, times={times}, filter={flt}) was invoked {len(ev.calls)} time(s) {ev.calls[:2]}, expected {len(want)}"
     return None
 
 
